@@ -266,7 +266,11 @@ func writeReplay(E *Engine, cfg *PropConfig, o *Obl, dir string) (string, bool) 
 	}
 	ok := false
 	if o.Model != "" && o.gen != nil {
-		if gopath, replayed, log := tryReplay(E, cfg, o, dir); gopath != "" {
+		gopath, replayed, log := tryReplay(E, cfg, o, dir)
+		if gopath == "" && log != "" {
+			fmt.Fprintf(&sb, "\nreplay on the real code not attempted: %s\n", log)
+		}
+		if gopath != "" {
 			fmt.Fprintf(&sb, "\nreplay on the real code: %s\n%s\n", gopath, log)
 			ok = replayed
 			if replayed {
